@@ -259,3 +259,5 @@ func mustJSON(v any) json.RawMessage {
 }
 
 func raceErrors() int { return runtime_raceErrors() }
+
+func debugStack() []byte { return debug.Stack() }
